@@ -149,3 +149,203 @@ def real_pieces(req):
 
 
 OPS['pieces'] = real_pieces
+
+
+# ----------------------------------------------------------------------------- runtime probes (session 8)
+RT = {}
+
+ADV3_SOURCES = '''
+import functools
+from sigtools import specifiers, modifiers
+def g(a, b=1, *, c=2): return a
+class Base: pass
+class Sub(Base):
+    @specifiers.forwards_to_super()
+    def m(self, *args, **kwargs): return super().m(*args, **kwargs)
+    def via(self, *args, **kwargs): return self.m(*args, **kwargs)
+sub_inst = Sub()
+def gen():
+    yield 1
+    raise RuntimeError('boom')
+ITEMS = gen()
+def unpack_gen(**kwargs): return g(*ITEMS, **kwargs)
+COUNTER = iter([1, 2, 3])
+def unpack_iter(**kwargs): return g(*COUNTER, **kwargs)
+class Pairs:
+    # a mapping-like object that is not a dict: unpacking it runs its code
+    calls = 0
+    def keys(self): Pairs.calls += 1; return ['c']
+    def __getitem__(self, k): Pairs.calls += 1; return 5
+PAIRS = Pairs()
+def unpack_pairs(*args): return g(*args, **PAIRS)
+TUP = (7,)
+def unpack_tuple(**kwargs): return g(*TUP, **kwargs)
+class FalsyCallable:
+    def __len__(self): return 0
+    def __call__(self, a: int, b: 'str' = '') -> str: return b
+class TruthyCallable:
+    def __call__(self, a: int, b: 'str' = '') -> str: return b
+falsy = FalsyCallable()
+truthy = TruthyCallable()
+class NE:
+    def __ne__(self, o): raise TypeError('no compare')
+    def __eq__(self, o): raise TypeError('no compare')
+    __hash__ = object.__hash__
+    def __repr__(self): return 'NE()'
+def ne_ret(a) -> NE(): return a
+%s
+OBJECTS = [sub_inst.via, unpack_gen, unpack_iter, unpack_pairs, unpack_tuple, falsy, truthy, ne_ret, chain_40, chain_250, chain_400]
+DECLARED = [sub_inst.m]
+HOOK = ['ne_ret', 'g']
+''' % '\n'.join(['def chain_0(a, b=1): return a'] +
+                ['def chain_%d(*args, **kwargs): return chain_%d(*args, **kwargs)' % (i, i - 1) for i in range(1, 401)])
+
+
+def rt_adversarial3(req):
+    """C07 on the callables of session 8 (forwards_to_super without a method further up, forwarding calls that unpack known
+    iterators / mapping-likes, a callable object that is falsy, an annotation that cannot be compared, long chains of
+    forwarding functions): the outcome rules of adversarial2, plus: known iterators are not used up, no code of unpacked
+    objects is run, the falsy object answers like its truthy twin (also under warnings-as-errors)"""
+    import sys as _sys, warnings, inspect
+    import sigtools
+    from sigtools import specifiers, signatures, sphinxext
+    from . import progs, real_r7
+    mod, fname = progs.load_module(ADV3_SOURCES)
+    problems = []
+    try:
+        for declared, objs in ((False, mod.OBJECTS), (True, mod.DECLARED)):
+            for obj in objs:
+                what = getattr(obj, '__qualname__', None) or type(obj).__name__
+                insp = real_r7._outcome(inspect.signature, obj)
+                for name, fn in (('sigtools.signature', sigtools.signature),
+                                 ('signature(auto=False)', lambda o: specifiers.signature(o, auto=False)),
+                                 ('signatures.signature', signatures.signature)):
+                    o = real_r7._outcome(fn, obj)
+                    if o[0] == 'hangs':
+                        problems.append('retrieval-hangs: %s(%s)' % (name, what))
+                    elif insp[0] == 'ok' and o[0] != 'ok':
+                        if declared and o[1] == 'ValueError':
+                            continue
+                        problems.append('retrieval-raises: %s(%s) raised %s although inspect.signature succeeds' % (name, what, o[1]))
+                    elif insp[0] == 'raised' and o[0] == 'raised' and o[1] != insp[1]:
+                        problems.append('different-exception: %s(%s) raised %s, inspect.signature raised %s' % (name, what, o[1], insp[1]))
+        # what discovery may not do to the objects it meets
+        if next(mod.COUNTER, None) != 1:
+            problems.append('retrieval-consumes-iterator: after retrieving the signature of unpack_iter the module-level iterator it unpacks has been advanced')
+        if mod.Pairs.calls:
+            problems.append('retrieval-runs-unpacked-object: retrieving the signature of unpack_pairs called the methods of the mapping-like it unpacks %d times' % mod.Pairs.calls)
+        # the tuple IS followed (a plain sequence)
+        with warnings.catch_warnings():
+            warnings.simplefilter('ignore')
+            if str(sigtools.signature(mod.unpack_tuple)) != '(*, c=2)':      # a star argument that is not the function's own hides the positional parameters
+                problems.append('known-tuple-not-followed: sigtools.signature(unpack_tuple) = %s' % sigtools.signature(mod.unpack_tuple))
+        # falsy vs truthy twin, warnings as errors
+        for name, fn in (('sigtools.signature', sigtools.signature), ('signatures.signature', signatures.signature)):
+            outs = []
+            for o in (mod.falsy, mod.truthy):
+                try:
+                    with warnings.catch_warnings():
+                        warnings.simplefilter('error')
+                        sg = fn(o)
+                        outs.append((str(sg), str(sg.evaluated())))
+                except BaseException as e:  # noqa
+                    outs.append(('raised', type(e).__name__))
+            if outs[0] != outs[1]:
+                problems.append('falsy-callable-differs: %s of a callable object whose truth value is false gives %s, of its truthy twin %s' % (name, outs[0], outs[1]))
+        # a long chain: the answer is the chain's end or the plain signature, never an exception
+        for nm in ('chain_40', 'chain_250', 'chain_400'):
+            o = real_r7._outcome(sigtools.signature, getattr(mod, nm), secs=60)
+            if o[0] == 'ok' and str(o[2]) not in ('(a, b=1)', '(*args, **kwargs)'):
+                problems.append('chain-answer: sigtools.signature(%s) = %s' % (nm, o[2]))
+        _sys.modules[mod.__name__] = mod
+        try:
+            for dotted in mod.HOOK:
+                want_sig = inspect.signature(getattr(mod, dotted))
+                want = (str(want_sig.replace(return_annotation=want_sig.empty)),
+                        '' if want_sig.return_annotation is want_sig.empty else repr(want_sig.return_annotation))
+                try:
+                    with warnings.catch_warnings():
+                        warnings.simplefilter('ignore')
+                        r = sphinxext.process_signature(None, 'function', mod.__name__ + '.' + dotted, None, None, '(PASSED)', 'RET')
+                except BaseException as e:  # noqa
+                    problems.append('sphinx-hook-raises: process_signature(%s) raised %s: %s' % (dotted, type(e).__name__, str(e)[:80]))
+                    continue
+                if r != want:
+                    problems.append('sphinx-hook-strings: process_signature(%s) returned %r; expected %r' % (dotted, r, want))
+        finally:
+            _sys.modules.pop(mod.__name__, None)
+    finally:
+        progs.unload(fname)
+    return ("ok", tuple(problems[:14]), "adversarial3")
+
+
+RT['adversarial3'] = rt_adversarial3
+
+_COLZERO = '''
+def g(x, y, *, z): return x
+class A:
+    def method(self, *args, **kwargs):
+        s = """
+column zero text
+"""
+        return g(*args, **kwargs)
+
+    def method2(self, *args, **kwargs):
+# comment at column zero
+        return g(*args, **kwargs)
+
+    def method3(self, a, *args, **kwargs):
+        if a:
+  # a comment less indented than the def
+            return g(a, *args, **kwargs)
+        return g(*args, **kwargs)
+
+    def twin(self, *args, **kwargs):
+        return g(*args, **kwargs)
+
+    def twin3(self, a, *args, **kwargs):
+        if a:
+            return g(a, *args, **kwargs)
+        return g(*args, **kwargs)
+def outer():
+    def inner(*args, **kwargs):
+        t = """
+zero
+"""
+        return g(*args, **kwargs)
+    def inner_twin(*args, **kwargs):
+        return g(*args, **kwargs)
+    return inner, inner_twin
+'''
+
+
+def rt_column_zero(req):
+    """C06 (unrelated statements / statement context): text to the left of an indented def — the inside of a multi-line string,
+    a comment at column zero — does not change what is discovered: same signature and provenance shape as the twin without it"""
+    import warnings
+    import sigtools
+    from . import progs
+    mod, fname = progs.load_module(_COLZERO)
+    problems = []
+    try:
+        a = mod.A()
+        inner, inner_twin = mod.outer()
+        for nm, f, twin in (('A.method (string content at column zero)', a.method, a.twin),
+                            ('A.method2 (comment at column zero)', a.method2, a.twin),
+                            ('A.method3 (comment left of the def)', a.method3, a.twin3),
+                            ('outer.inner (string content at column zero)', inner, inner_twin)):
+            with warnings.catch_warnings():
+                warnings.simplefilter('ignore')
+                try:
+                    got, want = sigtools.signature(f), sigtools.signature(twin)
+                except BaseException as e:  # noqa
+                    problems.append('column-zero-raises: %s: %s' % (nm, type(e).__name__))
+                    continue
+            if str(got) != str(want) or sorted(k for k in got.sources if k != '+depths') != sorted(k for k in want.sources if k != '+depths'):
+                problems.append('irrelevant-text-changes-discovery: sigtools.signature(%s) = %s, of its twin without that text %s' % (nm, got, want))
+    finally:
+        progs.unload(fname)
+    return ('ok', tuple(problems[:4]), 'column_zero')
+
+
+RT['column_zero'] = rt_column_zero
